@@ -137,7 +137,7 @@ pub fn run(rep: &mut Report) {
         for v in 0..(1u32 << n) {
             for bit in [false, true] {
                 let r = guarded(|| {
-                    let mut d = Ps2Decoder::new();
+                    let mut d = crate::scan::fresh_ps2();
                     for i in 0..n {
                         let _ = d.add_bit((v >> i) & 1 == 1);
                     }
@@ -158,7 +158,7 @@ pub fn run(rep: &mut Report) {
     }
     // bits beyond a frame boundary, long runs (num_bits must never overflow)
     let r = guarded(|| {
-        let mut d = Ps2Decoder::new();
+        let mut d = crate::scan::fresh_ps2();
         for i in 0..100_000u32 {
             let _ = d.add_bit(i % 7 < 3);
         }
@@ -170,7 +170,7 @@ pub fn run(rep: &mut Report) {
     for w in 0..=65535u16 {
         t.add("Ps2Decoder::add_word", 1);
         t.distinct.insert((11, w as u64));
-        if let Err(p) = guarded(|| Ps2Decoder::new().add_word(w)) {
+        if let Err(p) = guarded(|| crate::scan::fresh_ps2().add_word(w)) {
             t.panic("Ps2Decoder::add_word", format!("word=0x{:04X}", w), &p, J::obj().with("kind", J::s("words")).with("target", J::s("ps2")).with("words", J::Arr(vec![J::u(w as u64)])));
         }
     }
@@ -193,7 +193,7 @@ pub fn run(rep: &mut Report) {
         let words: [u16; 8] = [0x000, 0x7FF, crate::model::encode_frame(0x00), crate::model::encode_frame(0xFF), crate::model::encode_frame(0x1C) ^ 0x200, 0x001, 0x400, crate::model::encode_frame(0xAA)];
         for w in words {
             let r = guarded(|| {
-                let mut d = Ps2Decoder::new();
+                let mut d = crate::scan::fresh_ps2();
                 let mut kb = Keyboard::new(ScancodeSet2::new(), dyn_layout(0, 0), HandleControl::Ignore);
                 for _ in 0..SOAK {
                     for i in 0..11 {
@@ -520,7 +520,7 @@ pub fn run(rep: &mut Report) {
                 plus seeded hostile mixtures of every Keyboard entry point, each call inside catch_unwind in a build with overflow checks and debug assertions on; distinct_nontrivial = distinct (component, state, input) cases driven"
         .into();
     rep.assumptions.push("panic = unwind caught by catch_unwind (panic=unwind build); arithmetic overflow and out-of-range shifts panic because overflow-checks and debug-assertions are on in the harness profile, which applies to pc-keyboard too".into());
-    rep.sample_str("Ps2Decoder::add_word(0xFFFF) (bits above bit 10 set) → ".to_string() + &format!("{:?}", Ps2Decoder::new().add_word(0xFFFF)));
+    rep.sample_str("Ps2Decoder::add_word(0xFFFF) (bits above bit 10 set) → ".to_string() + &format!("{:?}", crate::scan::fresh_ps2().add_word(0xFFFF)));
     rep.sample_str(format!("ScancodeSet1 byte 0xF0 in state Start → {:?}", {
         use pc_keyboard::ScancodeSet;
         ScancodeSet1::new().advance_state(0xF0)
